@@ -37,7 +37,11 @@ func (n *LocalNode) checkNodeState(leavingIsError bool) error {
 }
 
 func (n *LocalNode) Ping() error {
-	return n.checkNodeState(true)
+	// a node that is in the middle of leaving still holds its keys and may yet abort the
+	// attempt: it must not look dead to its successor, which would otherwise adopt the
+	// node before it as predecessor and start serving (and accepting writes for) a key
+	// range that has not been handed over
+	return n.checkNodeState(false)
 }
 
 func (n *LocalNode) Notify(predecessor chord.VNode) error {
